@@ -178,4 +178,29 @@ def runQ (re : Oracle) (cfg : NodeCfg) (b : Buf Nat) : List QueryMsg → Buf Nat
     let (b2, ds, rs) := runQ re cfg b1 rest
     (b2, if o.delivered then (q.lt, q.id) :: ds else ds, if o.rebroadcast then (q.lt, q.id) :: rs else rs)
 
+/-- Inputs of a node over time: query messages and `SetTags` calls on the same node. -/
+inductive QIn where
+  | query (q : QueryMsg)
+  /-- `Serf.SetTags`: `s.config.Tags = tags` — buffers, clocks and name unchanged -/
+  | setTags (tags : List (String × String))
+  deriving Repr, Inhabited
+
+/-- The tags in effect after a history: those of the last `SetTags`, else the initial ones. -/
+def tagsAfter (tags : List (String × String)) : List QIn → List (String × String)
+  | [] => tags
+  | .query _ :: rest => tagsAfter tags rest
+  | .setTags t :: rest => tagsAfter t rest
+
+/-- Run a history with tag changes: `shouldProcessQuery` reads `s.config.Tags` afresh for
+every filter of every query, so each query is handled under the tags in effect when it
+arrives.  Result: the node's configuration and buffer afterwards and, per query in order,
+what `handleQuery` did. -/
+def runQT (re : Oracle) (cfg : NodeCfg) (b : Buf Nat) : List QIn → NodeCfg × Buf Nat × List QOut
+  | [] => (cfg, b, [])
+  | .query q :: rest =>
+    let (b1, o) := handleQuery re cfg b q
+    let (cfg2, b2, os) := runQT re cfg b1 rest
+    (cfg2, b2, o :: os)
+  | .setTags t :: rest => runQT re { cfg with tags := t } b rest
+
 end SerfModel.QueryHandle
